@@ -324,8 +324,13 @@ impl Plugin for FileTransferPlugin {
                                 next_package: 1,
                                 recvd_packages: 0,
                                 recvd_payload: 0,
+                                // we reserve the announced size but limit it as the announced values
+                                // might be wrong/corrupt. (we need a capacity >0 to indicate to store data)
                                 file_data: Vec::with_capacity(if keep_data {
-                                    (nr_packages * buffer_size) as usize
+                                    std::cmp::min(
+                                        nr_packages.saturating_mul(buffer_size),
+                                        16 * 1024 * 1024,
+                                    ) as usize
                                 } else {
                                     0
                                 }),
